@@ -276,10 +276,16 @@ def tier_b(ctx, F, builds):
     curves = TOY8 + TOYBIG
     parts = [("points", R.write_cfg("c09_points.cfg", consts(curves, ctx.seed, Kinds='{"points"}'), INV)),
              ("keygen", R.write_cfg("c09_keygen.cfg", consts(curves, ctx.seed, Kinds='{"keygen"}'), INV))]
-    prefixes = {0, 4, 5, 6, 7} if quick else set(range(256))
+    # 3-octet strings over the one-octet fields: every first octet on one seed-chosen curve (thorough), a spread on the others
+    spread = {0, 4, 5, 6, 7} if quick else {0, 1, 2, 3, 4, 5, 6, 7, 8, 9, 15, 16, 63, 64, 127, 128, 129, 200, 254, 255}
+    full_curve = None if quick else rng.choice(TOY8)
     scan_curves = TOY8 + (["E13"] if quick else TOYBIG)
     for cn in scan_curves:
-        pf = prefixes if cn in TOY8 else ({1, 2, 3, 4, 6} if quick else {0, 1, 2, 3, 4, 5, 6, 7})
+        if cn == full_curve:      # two partitions (the 2-octet scans appear in both; the results are keyed, duplicates collapse)
+            for half, pf in (("a", set(range(0, 128))), ("b", set(range(128, 256)))):
+                parts.append(("scan-%s-%s" % (cn, half), R.write_cfg("c09_scan_%s_%s.cfg" % (cn, half), consts([cn], ctx.seed, Kinds='{"scan"}', ScanPrefixes=R.tset(pf), ScanWide="TRUE"), INV)))
+            continue
+        pf = spread if cn in TOY8 else ({1, 2, 3, 4, 6} if quick else {0, 1, 2, 3, 4, 5, 6, 7})
         parts.append(("scan-" + cn, R.write_cfg("c09_scan_%s.cfg" % cn, consts([cn], ctx.seed, Kinds='{"scan"}', ScanPrefixes=R.tset(pf),
                                                                                  ScanWide="FALSE" if quick else "TRUE"), INV)))
     for cn in curves:
@@ -288,11 +294,13 @@ def tier_b(ctx, F, builds):
         parts.append(("dh-" + cn, R.write_cfg("c09_dh_%s.cfg" % cn, consts([cn], ctx.seed, Kinds='{"dh"}', DhKeys=ks), INV)))
     parts.sort(key=lambda p: 0 if p[0].startswith("scan") else 1)
     cases = R.run_partitions(ctx, "KeyCodecGen", parts, par=4)
-    rows_by = {}; kg = {}; scans = []; dh = {}
+    rows_by = {}; kg = {}; scans = []; dh = {}; seen_scans = set()
     for c in cases:
         if c["kind"] == "points": rows_by[(c["curve"], c["order"])] = c["out"]
         elif c["kind"] == "keygen": kg[(c["curve"], c["order"])] = c["out"]
-        elif c["kind"] == "scan": scans.append(c)
+        elif c["kind"] == "scan":
+            k = (c["curve"], c["order"], c["val"], tuple(c["out"]["fixed"]), c["out"]["nvar"], c["out"]["sep"], tuple(c["out"]["y"]))
+            if k not in seen_scans: seen_scans.add(k); scans.append(c)
         elif c["kind"] == "dh": dh[(c["curve"], c["sel"])] = c["out"]
     ctx.cov["tlc_wall_s"] = round(time.time() - t0, 1)
     ctx.add(point_rows=sum(len(v) for v in rows_by.values()), scan_states=len(scans), strings_scanned_per_build=sum(s["out"]["n"] for s in scans if s["val"]),
@@ -483,5 +491,5 @@ def run(ctx):
         "hybrid encodings (06/07) whose prefix contradicts the parity of y, and the collisions of the raw forms with the SEC 1 forms on a one-octet field, may be refused; if accepted they must denote the stated point",
         "random octets -> private key: both documented maps are admitted (Ecdsa!SecretSet); key generation may fail only where 0 is among the admitted values",
         "memory safety is observed by AddressSanitizer on exactly-sized heap blocks in the ASan builds (UBSan is not enabled: the arithmetic headers have benign reports that are C01's subject)",
-        "EC_PF_TWIN_MULT_ALGO_JOINT and unknown-point windows wider than the fixed-point window are not built here (findings of C01/C02)",
+        "unknown-point windows wider than the fixed-point window are not built here (finding of C02)",
     ]
